@@ -16,8 +16,9 @@ MANIFEST = {
             'coefficients are reset); the top-chemical relabelling swaps both liquids simultaneously; SLE writes only the solute at paired indices summing to the '
             'solute total, clamps the solubility into [0, x_max] and sends a pure solute entirely to one phase by comparing T with Tm; LLE.__call__ reads a field '
             'it also writes only inside a validity test, under a branch guarded by one, or after writing it in the same call. Every field SLE._setup computes from '
-            "this call's solute or flows is stored on every normal path; the SLE clamp bound is exactly N/(A+N). Equal activities, scaling and numerical agreement "
-            'of cached and uncached results are not decided.',
+            "this call's solute or flows is stored on every normal path; the SLE clamp bound is exactly N/(A+N). Nothing computed from one liquid before the top-"
+            'chemical relabelling is read after it unless it is swapped along; the equilibrium chemicals and their flows are gathered at full-tuple positions from '
+            'full-length sequences only. Equal activities, scaling and numerical agreement of cached and uncached results are not decided.',
 }
 
 LLEF = 'thermosteam/equilibrium/lle.py'
